@@ -296,12 +296,13 @@ func observeMsg(m protoreflect.Message, prefix string, obs map[string]any, depth
 			observeMsg(v.Message(), p+".", obs, depth+1)
 			// a KeyData / KeyTemplate: look inside its serialized value
 			mn := fd.Message().Name()
-			if (mn == "KeyData" || mn == "KeyTemplate") && depth < 3 {
+			if (mn == "KeyData" || mn == "KeyTemplate") && depth < 8 {
 				in := v.Message()
 				url := in.Get(in.Descriptor().Fields().ByName("type_url")).String()
 				if mt := innerTypeFor(fd.Message(), url); mt != nil {
 					im := mt.New()
 					if proto.Unmarshal(in.Get(in.Descriptor().Fields().ByName("value")).Bytes(), im.Interface()) == nil {
+						obs[p+".value>@parsed"] = 1
 						observeMsg(im, p+".value>", obs, depth+1)
 					}
 				}
@@ -375,13 +376,11 @@ func editLabel(es []edit) string {
 var keyEntries = []string{"proto-cleartext", "clear-bin", "clear-json", "enc-bin", "encctx-json", "proto-nosecrets", "nosecrets-bin", "nosecrets-json"}
 
 func runKeys(plan string, w *vt.Writer, n0 int) {
-	n := n0
-	readLines(plan, func(line []byte) {
+	parallel(plan, n0, func(n int, line []byte) {
 		var c keyCase
 		if err := json.Unmarshal(line, &c); err != nil {
 			vt.Fatal("plan row: %v", err)
 		}
-		n++
 		r := vt.Rng(int64(1000000 + n))
 		b := getBase(c.Type, c.Base)
 		kd := applyEdits(b.kd, b.sib, c.Edits, r)
